@@ -9,6 +9,7 @@ import (
 	"encoding/json"
 	"fmt"
 	"math"
+	"io"
 	"os"
 	"runtime"
 	"sort"
@@ -21,6 +22,7 @@ import (
 
 	"github.com/newrelic/newrelic-php-agent/daemon/internal/newrelic/collector"
 	"github.com/newrelic/newrelic-php-agent/daemon/internal/newrelic/infinite_tracing"
+	"github.com/newrelic/newrelic-php-agent/daemon/internal/newrelic/log"
 	"github.com/newrelic/newrelic-php-agent/daemon/internal/newrelic/utilization"
 	"github.com/newrelic/newrelic-php-agent/daemon/internal/newrelic/protocol"
 )
@@ -106,6 +108,12 @@ func (v *vProcT) noteApps() {
 	}
 	v.prevEnd = time.Now()
 }
+
+var (
+	vProcLog    string
+	vProcLogOff int64
+	vProcLics   []string // license keys of the applications of the current history
+)
 
 const vWatchdog = 3 * time.Second
 
@@ -988,6 +996,23 @@ func vProcOp(t []string) string {
 		vProcShutdown()
 		v := &vProcT{arrivals: make(chan *vReq, 4096), defs: map[string]*AppInfo{}, licHandle: map[string]string{}, ahs: map[string]*AppHarvest{},
 			crashed: make(chan struct{}), tainted: map[string]bool{}}
+		vProcLics = nil
+		if vKVor(t, "log", "0") == "1" {
+			// everything the daemon logs during this history (debug level) goes to a file that op logscan reads
+			if vProcLog == "" {
+				// next to the stats file of this harness process (the check's work directory), else a scratch directory
+				if st := os.Getenv("VERIF_STATS"); st != "" {
+					vProcLog = st + ".daemonlog"
+				} else {
+					dir, _ := os.MkdirTemp("", "verif-proclog")
+					vProcLog = dir + "/daemon.log"
+				}
+				log.Init(log.LogDebug, vProcLog)
+			}
+			if st, err := os.Stat(vProcLog); err == nil {
+				vProcLogOff = st.Size()
+			}
+		}
 		tmo, _ := strconv.Atoi(vKVor(t, "timeout", "0"))
 		v.p = NewProcessor(ProcessorConfig{Client: v, AppTimeout: time.Duration(tmo) * time.Second})
 		v.p.trackProgress = make(chan struct{})
@@ -1047,6 +1072,27 @@ func vProcOp(t []string) string {
 			close(ah.trigger)
 		}()
 		return fmt.Sprintf("crash=%d", crashed)
+	}
+	if op == "logscan" {
+		// proc logscan: does anything logged since the last scan contain the full license key of an application (C14)?
+		if vProcLog == "" {
+			return "leak=0 nolog=1"
+		}
+		f, err := os.Open(vProcLog)
+		if err != nil {
+			return "leak=0 nolog=1"
+		}
+		defer f.Close()
+		f.Seek(vProcLogOff, 0)
+		buf, _ := io.ReadAll(f)
+		vProcLogOff += int64(len(buf))
+		leak := 0
+		for _, k := range vProcLics {
+			if len(k) > 6 && strings.Contains(string(buf), k) {
+				leak = 1
+			}
+		}
+		return fmt.Sprintf("leak=%d", leak)
 	}
 	v := vProc
 	if v == nil {
@@ -1148,6 +1194,7 @@ func vProcOp(t []string) string {
 		info.AgentEventLimits.LogEventConfig.Limit = n("log", 10000)
 		info.AgentEventLimits.CustomEventConfig.Limit = n("custom", 30000)
 		v.defs[h] = info
+		vProcLics = append(vProcLics, string(info.License))
 		v.mu.Lock()
 		v.licHandle[string(info.License)] = h
 		v.mu.Unlock()
